@@ -73,6 +73,7 @@ func runHistory(r *hx.Run, w *world, blob bool, lv vt.Level, prior, judged histC
 	r.Eval(1)
 	outcome, verr := doCall(v, bv, blob, judged, pass)
 	if verr != nil {
+		explain(verr)
 		return "rejected"
 	}
 	kind := "oci"
@@ -283,6 +284,7 @@ func runList(r *hx.Run, w *world, list []*env, presentedName string, presented o
 	repo := &memRepo{artifact: presented, sigs: list, page: page}
 	_, outcomes, verr := notation.Verify(ctx, v, repo, notation.VerifyOptions{ArtifactReference: "reg.io/r@" + presented.Digest.String(), MaxSignatureAttempts: 50, UserMetadata: cloneMap(required)})
 	if verr != nil {
+		explain(verr)
 		return "rejected"
 	}
 	if why := judgeList(list, outcomes, presented, required); why != "" {
